@@ -547,7 +547,11 @@ impl SplitPool {
                     Some(tx) = low_rx.recv() => (tx, "low"),
                 };
 
-                wait_conn_drop(tx, channel).await
+                #[cfg(feature = "verif")]
+                crate::verif::emit("wp_pick", serde_json::json!({"pool": 0, "class": channel}));
+                wait_conn_drop(tx, channel).await;
+                #[cfg(feature = "verif")]
+                crate::verif::emit("wp_idle", serde_json::json!({"pool": 0, "class": channel}));
             }
         });
 
@@ -640,9 +644,19 @@ impl SplitPool {
         let (tx, rx) = oneshot::channel();
         let max_timeout = Duration::from_secs(5 * 60);
 
+        #[cfg(feature = "verif")]
+        let verif_req = VERIF_REQ_ID.fetch_add(1, Ordering::SeqCst) + 1;
+        #[cfg(feature = "verif")]
+        let mut verif_tracer = VerifPoolTracer { req: verif_req, stage: "queued", pool: Arc::as_ptr(&self.0) as usize };
+        #[cfg(feature = "verif")]
+        crate::verif::emit("wp_enq_start", serde_json::json!({"pool": verif_tracer.pool, "req": verif_req, "class": queue}));
+
         timeout_fut("tx to oneshot channel", max_timeout, chan.send(tx))
             .await?
             .map_err(|_| PoolError::QueueClosed)?;
+
+        #[cfg(feature = "verif")]
+        crate::verif::emit("wp_enq_end", serde_json::json!({"pool": verif_tracer.pool, "req": verif_req}));
 
         let start = Instant::now();
 
@@ -652,7 +666,17 @@ impl SplitPool {
 
         histogram!("corro.sqlite.pool.queue.seconds", "queue" => queue)
             .record(start.elapsed().as_secs_f64());
+        #[cfg(feature = "verif")]
+        {
+            verif_tracer.stage = "guard";
+            crate::verif::emit("wp_guard", serde_json::json!({"pool": verif_tracer.pool, "req": verif_req}));
+        }
         let conn = timeout_fut("acquiring write conn", max_timeout, self.0.write.get()).await??;
+        #[cfg(feature = "verif")]
+        {
+            verif_tracer.stage = "conn";
+            crate::verif::emit("wp_conn", serde_json::json!({"pool": verif_tracer.pool, "req": verif_req}));
+        }
 
         let start = Instant::now();
         let _permit = timeout_fut(
@@ -665,11 +689,37 @@ impl SplitPool {
         histogram!("corro.sqlite.write_permit.acquisition.seconds")
             .record(start.elapsed().as_secs_f64());
 
+        #[cfg(feature = "verif")]
+        {
+            verif_tracer.stage = "holding";
+            crate::verif::emit("wp_hold", serde_json::json!({"pool": verif_tracer.pool, "req": verif_req}));
+        }
         Ok(WriteConn {
+            #[cfg(feature = "verif")]
+            _verif: verif_tracer,
             conn,
             _drop_guard,
             _permit,
         })
+    }
+}
+
+#[cfg(feature = "verif")]
+static VERIF_REQ_ID: AtomicUsize = AtomicUsize::new(0);
+
+/// verification hook: reports when a write request ends (released or cancelled at any stage); declared
+/// as the first field of `WriteConn` so that it is dropped before the connection, guard and permit
+#[cfg(feature = "verif")]
+pub struct VerifPoolTracer {
+    req: usize,
+    stage: &'static str,
+    pool: usize,
+}
+
+#[cfg(feature = "verif")]
+impl Drop for VerifPoolTracer {
+    fn drop(&mut self) {
+        crate::verif::emit("wp_end", serde_json::json!({"pool": self.pool, "req": self.req, "stage": self.stage}));
     }
 }
 
@@ -719,6 +769,8 @@ where
 }
 
 pub struct WriteConn {
+    #[cfg(feature = "verif")]
+    _verif: VerifPoolTracer,
     conn: sqlite_pool::Connection<CrConn>,
     _drop_guard: DropGuard,
     _permit: OwnedSemaphorePermit,
@@ -890,6 +942,8 @@ pub struct LockRegistry {
 
 impl LockRegistry {
     fn remove(&self, id: &LockId) {
+        #[cfg(feature = "verif")]
+        crate::verif::emit("lock_rel", serde_json::json!({"reg": Arc::as_ptr(&self.id_gen) as usize, "id": id}));
         self.map.write().swap_remove(id);
     }
 
@@ -910,6 +964,8 @@ impl LockRegistry {
                 started_at: Instant::now(),
             },
         );
+        #[cfg(feature = "verif")]
+        crate::verif::emit("lock_obj", serde_json::json!({"reg": Arc::as_ptr(&self.id_gen) as usize, "id": id, "obj": lock as *const TokioRwLock<T> as *const () as usize}));
         let _tracker = LockTracker {
             id,
             registry: self.clone(),
@@ -936,6 +992,8 @@ impl LockRegistry {
                 started_at: Instant::now(),
             },
         );
+        #[cfg(feature = "verif")]
+        crate::verif::emit("lock_obj", serde_json::json!({"reg": Arc::as_ptr(&self.id_gen) as usize, "id": id, "obj": Arc::as_ptr(&lock) as *const () as usize}));
         let _tracker = LockTracker {
             id,
             registry: self.clone(),
@@ -962,6 +1020,8 @@ impl LockRegistry {
                 started_at: Instant::now(),
             },
         );
+        #[cfg(feature = "verif")]
+        crate::verif::emit("lock_obj", serde_json::json!({"reg": Arc::as_ptr(&self.id_gen) as usize, "id": id, "obj": lock as *const TokioRwLock<T> as *const () as usize}));
         let _tracker = LockTracker {
             id,
             registry: self.clone(),
@@ -988,6 +1048,8 @@ impl LockRegistry {
                 started_at: Instant::now(),
             },
         );
+        #[cfg(feature = "verif")]
+        crate::verif::emit("lock_obj", serde_json::json!({"reg": Arc::as_ptr(&self.id_gen) as usize, "id": id, "obj": Arc::as_ptr(&lock) as *const () as usize}));
         let _tracker = LockTracker {
             id,
             registry: self.clone(),
@@ -1023,6 +1085,8 @@ impl LockRegistry {
                 started_at: Instant::now(),
             },
         );
+        #[cfg(feature = "verif")]
+        crate::verif::emit("lock_obj", serde_json::json!({"reg": Arc::as_ptr(&self.id_gen) as usize, "id": id, "obj": lock as *const TokioRwLock<T> as *const () as usize}));
         let _tracker = LockTracker {
             id,
             registry: self.clone(),
@@ -1049,6 +1113,8 @@ impl LockRegistry {
                 started_at: Instant::now(),
             },
         );
+        #[cfg(feature = "verif")]
+        crate::verif::emit("lock_obj", serde_json::json!({"reg": Arc::as_ptr(&self.id_gen) as usize, "id": id, "obj": lock as *const TokioRwLock<T> as *const () as usize}));
         let _tracker = LockTracker {
             id,
             registry: self.clone(),
@@ -1062,9 +1128,16 @@ impl LockRegistry {
         if let Some(meta) = self.map.write().get_mut(id) {
             meta.state = state
         }
+        #[cfg(feature = "verif")]
+        crate::verif::emit("lock_ok", serde_json::json!({"reg": Arc::as_ptr(&self.id_gen) as usize, "id": id}));
     }
 
     fn insert_lock(&self, id: LockId, meta: LockMeta) {
+        #[cfg(feature = "verif")]
+        crate::verif::emit(
+            "lock_acq",
+            serde_json::json!({"reg": Arc::as_ptr(&self.id_gen) as usize, "id": id, "label": meta.label, "extra": meta.extra.as_ref().map(|e| e.to_string()), "kind": meta.kind}),
+        );
         self.map.write().insert(id, meta);
     }
 
